@@ -24,6 +24,8 @@ def reward_stream(rng, style):
         return lambda: float(rng.randint(-3, 5))
     if style == "zero":
         return lambda: 0.0
+    if style == "sparse":      # mostly zeros, sometimes a positive dyadic value
+        return lambda: 0.0 if rng.random() < 0.7 else dyadic(rng, 0, 8)
     raise ValueError(style)
 
 def gen_hp(rng, kind):
@@ -61,7 +63,7 @@ def pick_m(rng):
     return rng.choice([None, None, 1, 1, 2, 3, 5])
 
 def gen_cf_case(rng, kinds=CF_KINDS, max_ops=8, max_rows=40, queries=True, arm_changes=True,
-                warm=False, styles=None, label=None, foreign_decisions=True):
+                warm=False, styles=None, label=None, foreign_decisions=True, ties=False):
     kind = rng.choice(kinds)
     n_arms = rng.randint(2, 6)
     arms = rng.sample(range(0, 12), n_arms)
@@ -71,19 +73,21 @@ def gen_cf_case(rng, kinds=CF_KINDS, max_ops=8, max_rows=40, queries=True, arm_c
         if kind == "thompson":
             styles = ["binary"]
         elif kind == "popularity":
-            styles = ["nonneg_dyadic", "nonneg_float", "binary", "zero"]
+            styles = ["nonneg_dyadic", "nonneg_float", "binary", "zero", "sparse", "sparse"]
         else:
-            styles = ["dyadic", "float", "large", "smallint", "binary"]
+            styles = ["dyadic", "float", "large", "smallint", "binary", "sparse"]
     style = rng.choice(styles)
     binz = None
     if kind == "thompson" and rng.random() < 0.4:
         binz = gen_binz(rng, arms)
         style = rng.choice(["dyadic", "smallint", "float"])
+    if ties and binz is None:
+        style = rng.choice(["zero", "binary", "sparse"]) if kind != "thompson" else "binary"
     draw = reward_stream(rng, style)
     lp = (kind, binz) if kind == "thompson" else ((kind, gen_hp(rng, kind)) if kind in ("greedy", "ucb", "softmax") else (kind,))
     ops = []
     cur = list(arms)
-    n_ops = rng.randint(1, max_ops)
+    n_ops = rng.randint(1, max_ops) if max_ops >= 1 else 0
     sizes = [0, 1, 1, 2, 3, 7, 8, 9, 17, max_rows, 128, 129, 131, 300]
     def batch():
         n = rng.choice(sizes) if rng.random() < 0.5 else rng.randint(1, max_rows)
@@ -104,6 +108,11 @@ def gen_cf_case(rng, kinds=CF_KINDS, max_ops=8, max_rows=40, queries=True, arm_c
             ds, rs = batch(); ops.append(("pfit", ds, rs, None))
         elif c < 0.45:
             ds, rs = batch(); ops.append(("fit", ds, rs, None))
+        elif c < 0.5 and arm_changes and len(cur) > 2:
+            a = rng.choice(cur); cur.remove(a); removed.append(a)
+            ops.append(("rem", a))
+            b = next_arm; next_arm += 1
+            ops.append(("add", b, None)); cur.append(b)
         elif c < 0.6 and arm_changes:
             if removed and rng.random() < 0.5:
                 a = removed.pop(rng.randrange(len(removed)))
@@ -173,7 +182,7 @@ def grid_dist(metric, u, v):
     return math.sqrt(sum(x * x for x in d))
 
 def gen_ctx_case(rng, lps=None, nps=None, max_ops=6, max_rows=30, arm_changes=True, warm=False, label=None,
-                 reward_styles=None, queries=True, grid=4, force_dim=None):
+                 reward_styles=None, queries=True, grid=4, force_dim=None, fit_prob=0.1, swap_prob=0.06, ties=False):
     npk = rng.choice(nps if nps is not None else ["none"] + NP_KINDS)
     if lps is None:
         lps = CF_KINDS + LIN_KINDS if npk != "none" else LIN_KINDS
@@ -205,6 +214,11 @@ def gen_ctx_case(rng, lps=None, nps=None, max_ops=6, max_rows=30, arm_changes=Tr
         style = "dyadic"
     if npk == "tree" and kind == "greedy":
         lp = (kind, rng.choice([0.0, 0.0, 0.3]))
+    if ties and not is_lin:
+        # exact ties between arms: constant rewards and no exploration bonus
+        style = rng.choice(["zero", "binary", "sparse"]) if kind != "thompson" or binz is None else style
+        if kind in ("greedy", "ucb"):
+            lp = (kind, 0.0)
     draw = reward_stream(rng, style)
     # neighbourhood parameters
     first_rows = rng.randint(3, max_rows)
@@ -226,7 +240,7 @@ def gen_ctx_case(rng, lps=None, nps=None, max_ops=6, max_rows=30, arm_changes=Tr
     ops = []
     stored = []
     def batch(n):
-        ds, rs = gen_batch(rng, cur, n, draw)
+        ds, rs = gen_batch(rng, cur, n, draw, omit_prob=0.45)
         cx = gen_ctx(rng, n, d, 0, grid)
         return ds, rs, cx
     ds, rs, cx = batch(first_rows)
@@ -248,29 +262,34 @@ def gen_ctx_case(rng, lps=None, nps=None, max_ops=6, max_rows=30, arm_changes=Tr
             tot = sum(p); npol[3] = [x / tot for x in p]
     if npk == "lsh" and rng.random() < 0.3:
         p = [rng.random() for _ in arms]; tot = sum(p); npol[3] = [x / tot for x in p]
-    n_ops = rng.randint(1, max_ops)
+    n_ops = rng.randint(1, max_ops) if max_ops >= 1 else 0
     fixed_arms = npol is not None and npol[0] in ("radius", "lsh") and npol[3] is not None
     for _ in range(n_ops):
         c = rng.random()
         if c < 0.3:
             ds, rs, cx = batch(rng.choice([1, 1, 2, rng.randint(1, max_rows)]))
             ops.append(("pfit", ds, rs, cx)); stored += cx
-        elif c < 0.36 and not (is_lin and lp[3]):
+        elif c < 0.3 + fit_prob and not (is_lin and lp[3]):
             ds, rs, cx = batch(rng.randint(max(3, (npol[1] if npk in ("knearest",) else 3)), max_rows) if npk != "clusters" else rng.randint(6, max_rows))
             if npk == "clusters":
                 for i in range(min(len(cx), 4)):
                     cx[i] = [float((i * 2 + j) % (grid + 1)) for j in range(d)]; cx[i][0] = float(i % (grid + 1))
             ops.append(("fit", ds, rs, cx)); stored = list(cx)
-        elif c < 0.48 and arm_changes and not fixed_arms:
+        elif c < 0.3 + fit_prob + swap_prob and arm_changes and not fixed_arms and len(cur) > 2:
+            a = rng.choice(cur); cur.remove(a); removed.append(a)
+            ops.append(("rem", a))
+            b = next_arm; next_arm += 1
+            ops.append(("add", b, None)); cur.append(b)
+        elif c < 0.54 and arm_changes and not fixed_arms:
             if removed and rng.random() < 0.5:
                 a = removed.pop(rng.randrange(len(removed)))
             else:
                 a = next_arm; next_arm += 1
             ops.append(("add", a, None)); cur.append(a)
-        elif c < 0.56 and arm_changes and len(cur) > 2 and not fixed_arms:
+        elif c < 0.62 and arm_changes and len(cur) > 2 and not fixed_arms:
             a = rng.choice(cur); cur.remove(a); removed.append(a)
             ops.append(("rem", a))
-        elif c < 0.62 and warm and npk == "none" and len(cur) >= 2:
+        elif c < 0.68 and warm and npk == "none" and len(cur) >= 2:
             ops.append(gen_warm_op(rng, cur))
         elif queries:
             m = rng.choice([1, 1, 2, 3, 5])
